@@ -138,6 +138,12 @@ def c12_build(seed, tier):
     c = gen_component(g, ins, outs)
     if r.random() < 0.15:
         c = type(c)(c.a, c.g | g.PTL(g.bounds(outs[0], 3, 1)), c.inputvars, c.outputvars, simplify=False)
+    u = r.random()
+    if u < 0.04:
+        # a contract without any constraint: every valuation is a behaviour
+        c = type(c)(g.PTL([]), g.PTL([]), c.inputvars, c.outputvars, simplify=False)
+    elif u < 0.08:
+        c = type(c)(g.PTL([]), c.g, c.inputvars, c.outputvars, simplify=False)
     names = ins + outs
     k = r.randint(1, min(3, len(names)))
     obj = {n: r.choice([-3, -2, -1, 1, 2, 3]) for n in r.sample(names, k)}
